@@ -369,7 +369,7 @@ impl Phase for TypedViews {
                 format!("{}{}{}{}", r.pick(&["", " ", "\n"]), r.pick(&["", "-", "+", "- ", "!"]), body, r.pick(&["", " ", ";"]))
             },
             1 => r
-                .pick(&["\u{feff}x + 1", "\u{feff}1", "\u{feff}", "\u{200b}x", "bitnot(1.5)", "shl(xf, 2)", "x / 0", "xs + 1", "len(x)", "x", "xf", "xb", "xs", "(x, xf)", "()", "x = 1 / 0", "y += nosuch", "-xs", "math::sqrt(xb)"])
+                .pick(&["\u{feff}x + 1", "\u{feff}1", "\u{feff}", "\u{200b}x", "bitnot(1.5)", "shl(xf, 2)", "x / 0", "xs + 1", "len(x)", "x", "xf", "xb", "xs", "(x, xf)", "()", "x = 1 / 0", "y += nosuch", "-xs", "math::sqrt(xb)", "xn == xn", "xn != xn", "xt == xt", "xt != xt", "xe", "xe == xe", "xe == ()", "xn", "xt", "(xn, 1) == (xn, 1)", "xf == xf", "xs == xs", "xn >= xn", "x == x", "xe;", "xe; xe"])
                 .to_string(),
             _ => render_spaced(&render_ast(&typed_program(r, 5), Parens::Minimal, Some(r), true)),
         };
